@@ -581,6 +581,9 @@ def long_loop(sc, base, seed, pid="C10"):
     out = []
     if seed % 5 != 0:
         return out
+    from harness import known as _known
+    if _known.PREDICATES["F36"](sc):
+        return out          # (known finding F36: rounding noise grows over hundreds of steps for this configuration)
     dt = int(sc["model"].get("dt", 1))
     tw = copy.deepcopy(sc)
     T = 800 * dt
@@ -607,6 +610,11 @@ def long_loop(sc, base, seed, pid="C10"):
     last = rec[T - dt]
     if not b["crashed"] and not np.isfinite(last).all():
         out.append(viol(pid, T - dt, "the last step of a long run was not recorded"))
+    if pid == "C01" and not tw["events"] and not b["crashed"] and np.isfinite(last).all():
+        sc0 = float(np.max(np.abs(rec[0]))) or 1.0
+        dev = float(np.max(np.abs(last - rec[0]))) / sc0
+        if dev > 1e-9:
+            out.append(viol(pid, T - dt, "an event-free run of 800 steps has left the initial equilibrium", relative_deviation=dev))
     aff_positive = True
     if tw["events"] and not b["crashed"]:
         # (an event that only hits industries without any output cannot move a capacity that is zero)
@@ -862,6 +870,9 @@ def c19_periodic(sc, base, seed, rebuild=False):
     out = []
     if seed % 4 != 0:
         return out
+    from harness import known as _known0
+    if _known0.PREDICATES["F36"](sc):
+        return out          # (known finding F36)
     rng = random.Random(seed + 61)
     regs, secs, cats = scen.labels(sc["table"])
     dt = int(sc["model"].get("dt", 1))
